@@ -26,8 +26,15 @@ Definition is_void (r : sres) : bool := match r with Void => true | _ => false e
 Definition samples_of (rs : list sres) : list sample :=
   flat_map (fun r => match r with WithSample sm => [sm] | _ => [] end) rs.
 
-(* no node lists the same child twice (remove_unneeded removes a child's sample once per
-   occurrence: a repeated child makes the second `expect("Sample does not exist!")` fail) *)
+(* Iterator::unique: the first occurrence of every element, in order *)
+Fixpoint uniq_nat (l : list nat) : list nat :=
+  match l with
+  | [] => []
+  | x :: r => x :: filter (fun y => negb (Nat.eqb x y)) (uniq_nat r)
+  end.
+
+(* no node lists the same child twice (before the repair F13 remove_unneeded removed a child's sample
+   once per occurrence: a repeated child made the second `expect("Sample does not exist!")` fail) *)
 Fixpoint nodup_nat (l : list nat) : bool :=
   match l with [] => true | x :: r => negb (existsb (Nat.eqb x) r) && nodup_nat r end.
 Definition nodup_children (C : circuit) : bool := forallb (fun nd => nodup_nat (children nd)) C.
@@ -50,8 +57,9 @@ Section Sampler.
                   | _, _ => None
                   end) (Some []) cs.
 
-  (* remove_unneeded; None = "Sample does not exist!" *)
-  Definition remove_unneeded (i : nat) (cs : list nat) (ps : list (option sres))
+  (* remove_unneeded BEFORE the repair F13 (fix: t-wise sampling panics when a node lists the same child
+     twice): one removal per OCCURRENCE of a child; None = "Sample does not exist!" *)
+  Definition remove_unneeded_v0 (i : nat) (cs : list nat) (ps : list (option sres))
     : option (list (option sres)) :=
     fold_left (fun acc c =>
                  match acc with
@@ -65,8 +73,13 @@ Section Sampler.
                    else Some ps'
                  end) cs (Some ps).
 
-  (* partial_sample = sample_node + remove_unneeded *)
-  Definition partial_sample (i : nat) (ps : list (option sres)) : option (sres * list (option sres)) :=
+  (* remove_unneeded: children.iter().unique() (itertools: first occurrences, in order) *)
+  Definition remove_unneeded (i : nat) (cs : list nat) (ps : list (option sres))
+    : option (list (option sres)) := remove_unneeded_v0 i (uniq_nat cs) ps.
+
+  (* partial_sample = sample_node + remove_unneeded; rm = which remove_unneeded *)
+  Definition partial_sample_g (rm : nat -> list nat -> list (option sres) -> option (list (option sres)))
+    (i : nat) (ps : list (option sres)) : option (sres * list (option sres)) :=
     match nth i (circ d) FalseN with
     | Lit l => Some (WithSample (s_from_literal n l), ps)
     | And cs =>
@@ -75,7 +88,7 @@ Section Sampler.
       | Some rs =>
         let res := if existsb is_void rs then Void
                    else sres_of (and_merge_all d n t ord_int ord_sort i (samples_of rs)) in
-        option_map (fun ps' => (res, ps')) (remove_unneeded i cs ps)
+        option_map (fun ps' => (res, ps')) (rm i cs ps)
       end
     | Or cs =>
       match lookup ps cs with
@@ -83,24 +96,28 @@ Section Sampler.
       | Some rs =>
         let res := if forallb is_void rs then Void
                    else sres_of (or_merge_all t (samples_of rs)) in
-        option_map (fun ps' => (res, ps')) (remove_unneeded i cs ps)
+        option_map (fun ps' => (res, ps')) (rm i cs ps)
       end
     | TrueN => Some (Empty, ps)
     | FalseN => Some (Void, ps)
     end.
 
-  Definition sampler_step (st : option (list (option sres))) (i : nat) : option (list (option sres)) :=
+  Definition sampler_step_g rm (st : option (list (option sres))) (i : nat) : option (list (option sres)) :=
     match st with
     | None => None
     | Some ps =>
-      match partial_sample i ps with
+      match partial_sample_g rm i ps with
       | None => None
       | Some (res, ps') => Some (upd i (Some res) ps')
       end
     end.
 
-  Definition partial_samples : option (list (option sres)) :=
-    fold_left sampler_step (seq 0 (length (circ d))) (Some (map (fun _ => None) (circ d))).
+  Definition partial_samples_g rm : option (list (option sres)) :=
+    fold_left (sampler_step_g rm) (seq 0 (length (circ d))) (Some (map (fun _ => None) (circ d))).
+
+  Definition partial_sample := partial_sample_g remove_unneeded.
+  Definition sampler_step := sampler_step_g remove_unneeded.
+  Definition partial_samples := partial_samples_g remove_unneeded.
 
   (* trim_sample + the resampling loop of trim_and_resample *)
   Fixpoint trim_split (cs : list config) (mask : list bool) (k : nat) : list config * list config :=
@@ -140,8 +157,8 @@ Section Sampler.
     mkS (s_comp S) (map (complete_cfg root (zseq 1 n)) (s_part S)) (s_vars S) (s_lits S).
 
   (* TWiseSampler::sample via Ddnnf::sample_t_wise *)
-  Definition sample_t_wise : option sres :=
-    match partial_samples with
+  Definition sample_t_wise_g rm : option sres :=
+    match partial_samples_g rm with
     | None => None
     | Some ps =>
       let root := length (circ d) - 1 in
@@ -152,6 +169,9 @@ Section Sampler.
       | Some r => Some r
       end
     end.
+  Definition sample_t_wise : option sres := sample_t_wise_g remove_unneeded.
+  (* the pipeline before the repair F13 (witness of finding K36) *)
+  Definition sample_t_wise_v0 : option sres := sample_t_wise_g remove_unneeded_v0.
 
   (* what is printed / returned to the caller: Sample::iter() of the literal vectors *)
   Definition sres_configs (r : sres) : list cfg :=
